@@ -115,6 +115,30 @@ def cases(draw):
         for node in R.index(recipe).values():
             if "default" in node.get("kw", {}):
                 node["kw"]["default"] = cc.strip_keys(node["kw"]["default"], names0, excluded)
+    tuple_values = []
+    if recipe.get("kind") == "Object" and draw(st.integers(0, 5)) == 0 and not any(
+            p["name"] == "tup" or p.get("source") == "tup" for p in recipe.get("props", [])):
+        # a TUPLE array whose length limits sit right at the end of the positional items: which item types can
+        # occur depends on maxItems / additionalItems together
+        kinds = draw(st.lists(st.sampled_from(["Integer", "String", "Null", "Boolean"]), min_size=1, max_size=3))
+        sub = {"items": [{"id": 9400 + i, "kind": k, "kw": {}} for i, k in enumerate(kinds)]}
+        extra_kind = draw(st.sampled_from([None, None, "Number", "String", "Null", False]))
+        if extra_kind is False:
+            sub["additionalItems"] = False
+        elif extra_kind is not None:
+            sub["additionalItems"] = {"id": 9410, "kind": extra_kind, "kw": {}}
+        kw = {}
+        if draw(st.integers(0, 3)) > 0:
+            kw["maxItems"] = max(0, len(kinds) + draw(st.sampled_from([-1, 0, 1, 1, 2])))
+        if draw(st.integers(0, 3)) == 0:
+            kw["minItems"] = draw(st.integers(0, len(kinds)))
+        recipe["props"] = list(recipe.get("props", [])) + [{
+            "name": "tup", "source": None, "required": draw(st.booleans()),
+            "element": {"id": 9420, "kind": "Array", "kw": kw, "sub": sub}}]
+        sample = {"Integer": 1, "String": "s", "Null": None, "Boolean": True, "Number": 1.5}
+        head = [sample[k] for k in kinds]
+        tails = [[], [None], [1.5], ["x"], [None, None], [{"a": 1}]]
+        tuple_values = [{"tup": head + t} for t in tails] + [{"tup": head[:-1]}]
     recipe = sanitize_defaults(recipe)
     # nested defaults may have become invalid for enclosing schemas' defaults: one more pass
     recipe = sanitize_defaults(recipe)
@@ -125,6 +149,23 @@ def cases(draw):
         if draw(st.integers(0, 4)) == 0:
             v = draw(perturb(v))
         values.append(v)
+    # ... and values that LACK one member (a required one, with luck): they must be rejected, not half-built
+    def drop_one(v, depth=0):
+        if isinstance(v, dict) and v:
+            keys = sorted(v, key=str)
+            k = keys[draw(st.integers(0, len(keys) - 1))]
+            if depth < 2 and isinstance(v[k], (dict, list)) and v[k] and draw(st.booleans()):
+                return {**v, k: drop_one(v[k], depth + 1)}
+            return {kk: vv for kk, vv in v.items() if kk != k}
+        if isinstance(v, list) and v:
+            i = draw(st.integers(0, len(v) - 1))
+            return v[:i] + [drop_one(v[i], depth + 1)] + v[i + 1:]
+        return v
+
+    values += [drop_one(v) for v in values[:3] if isinstance(v, (dict, list)) and v]
+    if tuple_values:
+        base = values[0] if values and isinstance(values[0], dict) else {}
+        values = values[:3] + [{**base, **tv} for tv in tuple_values]
     if findings.is_open(PID, "pyname-key-collision"):
         # exclusion by construction: keep the search budget for everything else
         names = cc.renamed_pynames_recipe(recipe) | cc.renamed_pynames_schema(schema)
@@ -250,6 +291,12 @@ def predicate(case, stats):
         root = parsed[1]
     else:
         root = R.build(recipe)
+    # history: every class of the tree has validated something already, parents before their subclasses (whatever a
+    # parent class remembers from its own use must not reach the subclass)
+    for cls_ in sorted(reachable_classes(root).values(), key=lambda c: len(c.__mro__)):
+        for anc in cls_.__mro__[::-1]:
+            if isinstance(anc, ObjectMeta) and anc.__name__ != "Object":
+                observe.verdict(anc, {})
     ns = namespace(reachable_classes(root))
     fails = []
     stats.excluded["pyname-key-collision"] += case.get("excluded", 0)
